@@ -48,8 +48,48 @@ def rand_features(r, n):
 
 
 def lines_of(feats):
-    return [gen_db.gff_line(f["seqid"], f["ftype"], f["start"], f["end"], f["strand"], f["attrs"], source=f["source"])
-            for f in feats]
+    """an attribute named in the feature's "rep" list is written by REPEATING THE KEY once per value (ID=a;ID=b) -
+    the other legal GFF3 notation of several values - instead of the comma form (ID=a,b)"""
+    out = []
+    for f in feats:
+        parts = []
+        for k, v in f["attrs"]:
+            if k in f.get("rep", ()) and len(v) > 1:
+                parts += ["%s=%s" % (k, x) for x in v]
+            else:
+                parts.append("%s=%s" % (k, ",".join(v)) if v else k)
+        out.append("\t".join([f["seqid"], f["source"], f["ftype"], str(f["start"]), str(f["end"]), ".", f["strand"], ".",
+                              ";".join(parts)]))
+    return out
+
+
+def rand_features_rep(r, n):
+    """files for the repeated-key notation: few comma-form multi-valued IDs, and (mostly) one feature whose id
+    attribute - ID, sometimes Name as well - is defined twice by repeating the key, anywhere in the file (inside or
+    beyond the dialect-inspection window, which the caller makes small)"""
+    feats = rand_features(r, n)
+    for i, f in enumerate(feats):
+        f["rep"] = []
+        attrs = []
+        for k, v in f["attrs"]:
+            if k == "ID" and len(v) > 1 and r.random() < 0.7:
+                v = v[:1]
+            if len(v) > 1 and r.random() < 0.6:
+                f["rep"].append(k)
+            attrs.append((k, v))
+        f["attrs"] = attrs
+    x = r.random()
+    picks = [("ID", ["gX", "gY"])] if x < 0.5 else [("Name", ["nmX", "nmY"])] if x < 0.75 else \
+        [("ID", ["gX", "gX"])] if x < 0.85 else []
+    for k, v in picks:
+        f = feats[r.randrange(len(feats))] if r.random() < 0.6 else feats[-1]
+        if f["attrs"] and not f["attrs"][0][1]:
+            continue
+        f["attrs"] = [(kk, vv) for kk, vv in f["attrs"] if kk != k]
+        f["attrs"].insert(r.randrange(len(f["attrs"]) + 1) if f["attrs"] and f["attrs"][0][1] else 0, (k, v))
+        f["attrs"].sort(key=lambda kv: not kv[1])
+        f["rep"] = list(f.get("rep", [])) + [k]
+    return feats
 
 
 def rand_idspec(r):
@@ -278,7 +318,7 @@ def judge(ctx, case):
         return res
     cfg = dbside.Cfg.from_json(case["config"])
     path = dbside.write_lines(os.path.join(ctx.scratch, "c04.gff3"), lines)
-    db, rep = dbside.py_create(path, cfg)
+    db, rep = dbside.py_create(path, cfg, checklines=case.get("checklines", 10), supplied=case.get("supplied"))
     got = check_keys(case, feats, cfg.idspec, db, rep, res)
     if got is None:
         return res
@@ -295,22 +335,53 @@ def run(ctx):
     r = ctx.rng("c04")
     res.rule = ("GFF3 inputs of 1-12 lines whose features have, lack, share or multiply define ID/Name/gene_id/Alias; every "
                 "id_spec form (default, string, list, ':field:', callable zoo incl. None/''/'autoincrement:X', dict of "
-                "string or list with missing featuretypes); merge_strategy create_unique so that all lines are kept. "
+                "string or list with missing featuretypes); merge_strategy create_unique so that all lines are kept; files "
+                "of 1-16 lines where ID / Name are defined twice by REPEATING THE KEY (ID=a;ID=b), inside and beyond the "
+                "inspection window (checklines 0-10) or with a supplied dialect. "
                 "non-trivial = distinct (input, id_spec) where at least one key is not the plain ID attribute")
     cmds, exp, tags = [], [], []
     n = 250 if not ctx.thorough else 4000
-    for i in range(n):
-        feats = rand_features(r, r.randrange(1, 13))
-        spec = rand_idspec(r)
+    nrep = 200 if not ctx.thorough else 2500
+    rr = ctx.rng("c04", "repeated-key notation")
+    import pyside
+    for i in range(n + nrep):
+        cl, supplied, rv = 10, None, r
+        if i < n:
+            feats = rand_features(r, r.randrange(1, 13))
+            spec = rand_idspec(r)
+        else:
+            # the id attribute defined twice by repeating the key (ID=a;ID=b, Name=x;Name=y), inside and beyond the
+            # dialect-inspection window (checklines + 1 features): small windows, files longer than the window; sometimes
+            # the dialect is supplied (no window at all)
+            rv = rr
+            feats = rand_features_rep(rr, rr.randrange(1, 17))
+            A = lambda name: ("a", name)
+            spec = rr.choice([dbside.IdSpec(), dbside.IdSpec("L", [A("ID")], form="str"),
+                              dbside.IdSpec("L", [A("Name"), A("ID")]), dbside.IdSpec("L", [A("Name")], form="str"),
+                              dbside.IdSpec("D", table={"gene": [A("ID")], "mRNA": [A("Name"), A("ID")], "exon": [A("ID")]}),
+                              rand_idspec(rr), rand_idspec(rr)])
+            cl = rr.choice([0, 1, 2, 3, 5, 10])
+            if rr.random() < 0.15:
+                supplied = pyside.mk_dialect(order=["ID", "Name"])
         cfg = dbside.Cfg(idspec=spec, strategy="create_unique")
         lines = lines_of(feats)
         path = dbside.write_lines(os.path.join(ctx.scratch, "c04.gff3"), lines)
-        db, rep = dbside.py_create(path, cfg)
+        db, rep = dbside.py_create(path, cfg, checklines=cl, supplied=supplied)
         res.evaluations += 1
         res.count("spec_" + spec.kind + "_" + (spec.form if spec.kind == "L" else ""))
         inp = {"lines": lines, "id_spec": spec.describe(), "merge_strategy": "create_unique"}
         case = mk_case("import", lines, feats, cfg)
-        cmds.append(dbside.cmd_create(lines, cfg)); exp.append(rep); tags.append(("create_db", repr(inp)))
+        if i >= n:
+            inp.update(checklines=cl, dialect=supplied)
+            case.update(checklines=cl, supplied=supplied)
+            for j, f in enumerate(feats):
+                for k in f.get("rep", ()):
+                    res.count("key_repeated_%s_%s" % (k, "supplied_dialect" if supplied else
+                                                      "inside_window" if j <= cl else "beyond_window"))
+            if db is not None:
+                res.count("repeat_files_dialect_repeated_keys_%s" % db.dialect["repeated keys"])
+        cmds.append(dbside.cmd_create(lines, cfg, checklines=cl, supplied=supplied)); exp.append(rep)
+        tags.append(("create_db", repr(inp)))
         got = check_keys(case, feats, spec, db, rep, res)
         if got is None:
             continue
@@ -323,9 +394,12 @@ def run(ctx):
         tags.append(("__getitem__ absent", repr(inp)))
         # look-ups stay exact after deletions on the same FeatureDB object (by id and by Feature object)
         if len(got) >= 2 and i % 2 == 0:
-            victims = r.sample(got, r.randrange(1, min(3, len(got)) + 0))
-            by = "features" if r.random() < 0.5 else "ids"
-            check_delete(mk_case("delete_lookup", lines, feats, cfg, victims=victims, delete_by=by), db, got, res)
+            victims = rv.sample(got, rv.randrange(1, min(3, len(got)) + 0))
+            by = "features" if rv.random() < 0.5 else "ids"
+            dcase = mk_case("delete_lookup", lines, feats, cfg, victims=victims, delete_by=by)
+            if i >= n:
+                dcase.update(checklines=cl, supplied=supplied)
+            check_delete(dcase, db, got, res)
             cmds.append("delete " + dbside.enc_list(victims)); exp.append("ok"); tags.append(("delete", repr(inp)))
             cmds.append("get " + enc(victims[0])); exp.append("err FeatureNotFoundError"); tags.append(("__getitem__ after delete", repr(inp)))
         if len(res.samples) < 3:
